@@ -78,20 +78,20 @@ func init() {
 			StandardEncodingSID[code+i] = sid + i
 		}
 	}
-	set(32, 95, 1)    // space … asciitilde
-	set(161, 15, 96)  // exclamdown … fl
-	set(177, 4, 111)  // endash dagger daggerdbl periodcentered
-	set(182, 8, 115)  // paragraph … perthousand
-	set(191, 1, 123)  // questiondown
-	set(193, 8, 124)  // grave … dieresis
-	set(202, 2, 132)  // ring cedilla
-	set(205, 4, 134)  // hungarumlaut ogonek caron emdash
-	set(225, 1, 138)  // AE
-	set(227, 1, 139)  // ordfeminine
-	set(232, 4, 140)  // Lslash Oslash OE ordmasculine
-	set(241, 1, 144)  // ae
-	set(245, 1, 145)  // dotlessi
-	set(248, 4, 146)  // lslash oslash oe germandbls
+	set(32, 95, 1)   // space … asciitilde
+	set(161, 15, 96) // exclamdown … fl
+	set(177, 4, 111) // endash dagger daggerdbl periodcentered
+	set(182, 8, 115) // paragraph … perthousand
+	set(191, 1, 123) // questiondown
+	set(193, 8, 124) // grave … dieresis
+	set(202, 2, 132) // ring cedilla
+	set(205, 4, 134) // hungarumlaut ogonek caron emdash
+	set(225, 1, 138) // AE
+	set(227, 1, 139) // ordfeminine
+	set(232, 4, 140) // Lslash Oslash OE ordmasculine
+	set(241, 1, 144) // ae
+	set(245, 1, 145) // dotlessi
+	set(248, 4, 146) // lslash oslash oe germandbls
 }
 
 // Predefined charsets (TN5176 Appendix C), as SIDs per glyph index.
